@@ -306,9 +306,9 @@ fn gen_inputs(rng: &mut Rng, f: &Flow, total: usize, keys: i64, vals: i64) -> Ve
 
 fn c28(args: &Args, rep: &mut Reporter, table: &[Flow]) {
     let rng = args.rng();
-    let small_cases = args.budget(60, 1200, 1);
-    let large_cases = args.budget(12, 200, 1);
-    let large_parts = args.budget(30, 100, 2);
+    let small_cases = args.budget(500, 5000, 1);
+    let large_cases = args.budget(60, 500, 1);
+    let large_parts = args.budget(40, 100, 2);
     let mut ctx = Ctx { rep, prop: "C28", histories: HashSet::new() };
     let mut exhaustive_sets = 0u64;
     for f in table.iter().filter(|f| f.c28) {
@@ -451,9 +451,9 @@ fn per_key_obs(f: &Flow, obs: &V) -> BTreeMap<i64, V> {
 
 fn c29(args: &Args, rep: &mut Reporter, table: &[Flow]) {
     let rng = args.rng();
-    let cases = args.budget(60, 1200, 1);
-    let il_cases = args.budget(12, 200, 1);
-    let large_cases = args.budget(12, 200, 1);
+    let cases = args.budget(600, 6000, 1);
+    let il_cases = args.budget(100, 1000, 1);
+    let large_cases = args.budget(60, 500, 1);
     let mut ctx = Ctx { rep, prop: "C29", histories: HashSet::new() };
     for f in table.iter().filter(|f| f.c29) {
         let mut frng = rng.fork(hash_of(f.name) ^ 29);
@@ -478,7 +478,7 @@ fn c29(args: &Args, rep: &mut Reporter, table: &[Flow]) {
             let want = reference(f, &base_ticks);
             let lens: Vec<usize> = inputs.iter().map(|i| i.len()).collect();
             let parts: Vec<Sizes> = if large {
-                (0..args.budget(30, 100, 2)).map(|pi| random_partition(&mut frng, &lens, 1, 2 + (pi as u32 % 6))).collect()
+                (0..args.budget(40, 100, 2)).map(|pi| random_partition(&mut frng, &lens, 1, 2 + (pi as u32 % 6))).collect()
             } else {
                 partitions(&mut frng, &lens, 2000).0
             };
@@ -609,7 +609,7 @@ fn reorderings(rng: &mut Rng, w: flows::Weak, items: &[Item], cap: usize) -> Vec
 
 fn c32(args: &Args, rep: &mut Reporter, table: &[Flow]) {
     let rng = args.rng();
-    let cases = args.budget(24, 400, 1);
+    let cases = args.budget(200, 2000, 1);
     let part_cap = args.budget(16, 64, 2);
     let mut ctx = Ctx { rep, prop: "C32", histories: HashSet::new() };
     for f in table.iter().filter(|f| f.c32) {
@@ -834,7 +834,7 @@ fn c33_judge(ctx: &mut Ctx, f: &Flow, ticks: &Ticks) -> Option<Run> {
 
 fn c33(args: &Args, rep: &mut Reporter, table: &[Flow]) {
     let rng = args.rng();
-    let cases = args.budget(4000, 80000, 3);
+    let cases = args.budget(40000, 400000, 3);
     let mut ctx = Ctx { rep, prop: "C33", histories: HashSet::new() };
     for f in table.iter().filter(|f| f.promise != Promise::None) {
         let mut frng = rng.fork(hash_of(f.name) ^ 33);
